@@ -31,7 +31,7 @@ type Op struct {
 	K   string `json:"k"` // regnode rmnode regpipe rmpipe rpan thr thrs
 	ID  int    `json:"id,omitempty"`
 	Obj int    `json:"obj,omitempty"`
-	Ty  int    `json:"ty,omitempty"`  // 1 filter 2 formatter 3 sink 4 formatterfilter
+	Ty  int    `json:"ty,omitempty"`  // 1 filter 2 formatter 3 sink 4 formatterfilter; undeclared values: 5 NodeType(9), 6 (0), 7 (5), 8 (99), 9 (-1)
 	Pol int    `json:"pol,omitempty"` // 0 none 1 allow 2 deny
 	Pid int    `json:"pid,omitempty"`
 	Ety int    `json:"ety,omitempty"`
@@ -126,7 +126,8 @@ type Case struct {
 	Then  []Step  `json:"then,omitempty"` // further registry calls and Sends on the same Broker
 	// Payload of every Send of the case: 0 a fresh pointer, 1 nil, 2 a string, 3 a struct value
 	Payload int `json:"payload,omitempty"`
-	// Clock: 0 the Broker's clock is left alone, 1 StopTimeAt(a fixed instant in the past), 2 StopTimeAt(the zero time)
+	// Clock: 0 the Broker's clock is left alone, 1 StopTimeAt(a fixed instant in the past), 2 StopTimeAt(the zero time),
+	// 3 StopTimeAt(2100-01-01: later than the deadline of the live deadline-carrying caller contexts), 4 StopTimeAt(now)
 	Clock int `json:"clock,omitempty"`
 	// SendIndex says which Send of the sequence an emitted record describes (0 = the first)
 	SendIndex int `json:"send_index,omitempty"`
@@ -185,6 +186,15 @@ func ntype(t int) el.NodeType {
 		return el.NodeTypeSink
 	case 4:
 		return el.NodeTypeFormatterFilter
+	// values outside the four declared constants (registrable in every position the validation does not look at)
+	case 6:
+		return el.NodeType(0)
+	case 7:
+		return el.NodeType(5)
+	case 8:
+		return el.NodeType(99)
+	case 9:
+		return el.NodeType(-1)
 	}
 	return el.NodeType(9)
 }
@@ -866,6 +876,12 @@ func callerContext(kind int, pre bool) (context.Context, func()) {
 			<-ctx.Done()
 		}
 		return ctx, cancel
+	case 9:
+		// a live context.WithTimeout: carries a deadline an hour away and is NOT done
+		return context.WithTimeout(context.Background(), time.Hour)
+	case 10:
+		// a live context.WithDeadline far in the future (2200: after every instant the Broker's clock is stopped at)
+		return context.WithDeadline(context.Background(), time.Date(2200, 1, 1, 0, 0, 0, 0, time.UTC))
 	case 7:
 		// context.Background() itself: can never be cancelled (only scripts without a cancellation use it)
 		return context.Background(), func() {}
@@ -1116,6 +1132,14 @@ func execCase(c Case) []Result {
 		t := time.Time{}
 		w.clock = &t
 		b.StopTimeAt(t)
+	case 3:
+		t := time.Date(2100, 1, 1, 0, 0, 0, 0, time.UTC) // after the deadline of any "one hour from now" context
+		w.clock = &t
+		b.StopTimeAt(t)
+	case 4:
+		t := time.Now()
+		w.clock = &t
+		b.StopTimeAt(t)
 	}
 	var flights []*flight
 	go func() {
@@ -1289,6 +1313,9 @@ func countGraphGoroutines() int {
 
 // ---------- Gallina ----------
 func tyLit(t int) string {
+	if t < 0 || t > 5 {
+		return "TOther" // 6..9: undeclared NodeType values
+	}
 	return [...]string{"TOther", "TFilter", "TFormatter", "TSink", "TFormatterFilter", "TOther"}[t]
 }
 func polLit(p int) string { return [...]string{"ANone", "AAllow", "ADeny", "ABad"}[p] }
@@ -1365,12 +1392,12 @@ type emitter struct {
 
 func (e *emitter) run(c Case) Result { return e.runSeq(c)[0] }
 
-var ctxKindName = []string{"?", "context.WithCancel", "custom-type", "WithCancelCause", "WithTimeoutCause", "child-of-cancel-cause", "WithDeadlineCause", "context.Background", "WithDeadline-in-the-past"}
+var ctxKindName = []string{"?", "context.WithCancel", "custom-type", "WithCancelCause", "WithTimeoutCause", "child-of-cancel-cause", "WithDeadlineCause", "context.Background", "WithDeadline-in-the-past", "live-WithTimeout-1h", "live-WithDeadline-2200"}
 
 // runSeq executes a case (one Send, or a sequence of registry calls and Sends on one Broker) and emits one dcase per Send,
 // whose history is everything the Broker was told up to that Send
 func (e *emitter) runSeq(c Case) []Result {
-	rot := []int{1, 2, 3, 5, 4, 2, 1, 3, 6, 5, 7, 8}
+	rot := []int{1, 2, 3, 5, 4, 2, 1, 3, 6, 5, 7, 8, 9, 10}
 	pick := func(sc *Sched, k int) {
 		if sc.Ctx != 0 {
 			return
